@@ -14,8 +14,8 @@ T=$( (cargo test --offline 2>&1 | grep -E "^test result" | head -1) )
 echo "tests with patch: $T"
 DEMO=$(python3 -c "import json;print(json.load(open('$O/meta$N.json'))['demo_cmd'])")
 echo "demo cmd: $DEMO"
-(cd $O/demo$N 2>/dev/null || cd $O; timeout 900 bash -c "$DEMO" > $O/demo$N.with.log 2>&1); RCW=$?
-git checkout -q -- .
+find $O/demo$N -name "*.rs" -exec touch {} + 2>/dev/null; (cd $O/demo$N 2>/dev/null || cd $O; timeout 900 bash -c "$DEMO" > $O/demo$N.with.log 2>&1); RCW=$?
+git checkout -q -- .; find . -name "*.rs" -path "./src/*" -exec touch {} + ; find $O/demo$N -name "*.rs" -exec touch {} + 2>/dev/null
 (cd $O/demo$N 2>/dev/null || cd $O; timeout 900 bash -c "$DEMO" > $O/demo$N.without.log 2>&1); RCO=$?
 echo "demo exit with patch: $RCW   without patch: $RCO"
 OKT=0; echo "$T" | grep -q " 0 failed" && echo "$T" | grep -q "82 passed" && OKT=1
